@@ -105,7 +105,7 @@ def run(eng, rep) -> None:
     g = Grammar(prog)
     cbs = callbacks(eng, g)
     tcls = transformer_class(eng)
-    rep.floor("R07.1", "grammar rules", len(g.user_rules), 28)
+    rep.floor("R07.1", "grammar rules", len(g.user_rules), 20)
     for rule in g.user_rules:
         cb = cbs.get(rule)
         if cb is None:
